@@ -6,6 +6,8 @@ import (
 	"fmt"
 	"testing"
 
+	"github.com/megaease/easegress/pkg/supervisor"
+
 	"pgregory.net/rapid"
 )
 
@@ -30,7 +32,8 @@ func TestVerifC12Twin(t *testing.T) {
 	vf := vfBegin(t, "C12")
 	defer vf.End()
 	rapid.Check(t, func(rt *rapid.T) {
-		srv := vfGenServer(rt, vfGenOpts{IPFilters: rapid.Bool().Draw(rt, "ipf"), IPPool: vfIPPool, Bias12: true, BodyLimit: rapid.Bool().Draw(rt, "bodylimit")})
+		srv := vfGenServer(rt, vfGenOpts{IPFilters: rapid.Bool().Draw(rt, "ipf"), IPPool: vfIPPool, Bias12: true, BodyLimit: rapid.Bool().Draw(rt, "bodylimit"),
+			NoHeaders: rapid.IntRange(0, 3).Draw(rt, "noheaders") == 0, ServerIPF: rapid.Bool().Draw(rt, "serveripf")})
 		srv.CacheSize = rapid.SampledFrom([]int{1, 2, 8, 64}).Draw(rt, "cache")
 		twin := srv
 		twin.CacheSize = 0
@@ -50,6 +53,7 @@ func TestVerifC12Twin(t *testing.T) {
 			extra = vfCollidingPair(rt, srv)
 		}
 		seq, _ := vfGenSeq(rt, srv, 5, 40, extra)
+		var reloadSpecs [2]*supervisor.Spec
 		if rapid.Bool().Draw(rt, "bodies") {
 			// request bodies around the generated clientMaxBodySize values (10 / 1000 / -1 / default)
 			for i := range seq {
@@ -58,11 +62,57 @@ func TestVerifC12Twin(t *testing.T) {
 			vf.Class("sequence-with-bodies")
 		}
 
+		// optional hot update in the middle: both servers are reloaded with the same new spec (same
+		// rules, server-level options / IP filters changed) - the cache must not carry anything over
+		reloadAt := -1
+		var y2 string
+		if rapid.IntRange(0, 2).Draw(rt, "reload") == 0 && len(seq) > 2 {
+			reloadAt = rapid.IntRange(1, len(seq)-1).Draw(rt, "reloadAt")
+			srv2 := srv
+			srv2.IPF = nil
+			switch rapid.IntRange(0, 4).Draw(rt, "srv2.ipf") {
+			case 0, 4: // filter removed (or still none)
+			case 1: // relaxed: one block entry dropped / one allow entry added
+				if srv.IPF != nil {
+					f := *srv.IPF
+					if len(f.Block) > 0 {
+						f.Block = append([]string{}, f.Block[1:]...)
+					} else {
+						f.BlockByDefault = false
+					}
+					srv2.IPF = &f
+				}
+			default:
+				srv2.IPF = vfGenIPF(rt, "srv2.ipf", vfIPPool)
+			}
+			srv2.XFF = !srv.XFF
+			if rapid.Bool().Draw(rt, "srv2.maxbody") {
+				srv2.MaxBody = rapid.SampledFrom([]int64{0, 10, 1000}).Draw(rt, "srv2.maxbodyv")
+			}
+			y2 = srv2.YAML()
+			tw2 := srv2
+			tw2.CacheSize = 0
+			ss2, err := supervisor.NewSpec(y2)
+			ss20, err0 := supervisor.NewSpec(tw2.YAML())
+			if err != nil || err0 != nil {
+				rt.Fatalf("VF-INCONCLUSIVE reload spec rejected: %v %v", err, err0)
+			}
+			defer func() { _ = ss2; _ = ss20 }()
+			vf.Class("sequence-with-reload")
+			reloadSpecs = [2]*supervisor.Spec{ss2, ss20}
+		}
+
 		// shadow computation of the documented cache key (host+method+path): who populated it
 		firstByKey := map[string]vfReq{}
 		distinctKeys := map[string]bool{}
 		hitOther, collisionHit := false, false
 		for i, req := range seq {
+			if i == reloadAt {
+				m.reload(reloadSpecs[0], mapper)
+				m0.reload(reloadSpecs[1], mapper0)
+				y += "--- both reloaded at #" + fmt.Sprint(i) + " with\n" + y2
+				firstByKey = map[string]vfReq{}
+			}
 			got := vfServe(m, mapper, req)
 			want := vfServe(m0, mapper0, req)
 			ck := req.Host + req.Method + req.Path
